@@ -35,6 +35,11 @@ type JobGroup struct {
 	// defined window cannot run copy()); the job is then recorded as not applicable instead of inconclusive.
 	// Only for groups whose obligation is also covered by another group with an ordinary encoding.
 	OptionalUnsupported string
+	// OptionalLoad: the harness of this group names unexported identifiers of the repository (a deepening
+	// lemma). When it no longer compiles against the tree under test (a rename), the group is recorded as not
+	// applicable with this reason instead of making the whole check inconclusive. Only for groups whose
+	// property is also decided by a group that uses exported entry points only.
+	OptionalLoad string
 	// failure through a history of public calls, so an unconfirmed one is a lemma that does not fit, not an engine error
 	Lemma  bool
 	Solver string
@@ -265,6 +270,11 @@ func cmdCheck(argv []string) int {
 			}
 			t0 := time.Now()
 			l, err = loadRepo(ov, []string{pkgImportPath(g.Pkg)})
+			if err != nil && g.OptionalLoad != "" {
+				fmt.Printf("NOTE property=%s group %s not applicable to this tree (harness does not compile: %s)\n", id, g.Name, g.OptionalLoad)
+				ev.NotApplicable = append(ev.NotApplicable, fmt.Sprintf("%s: %s", g.Name, g.OptionalLoad))
+				continue
+			}
 			if err != nil {
 				// the repository (with harness) does not compile: the check cannot run
 				fmt.Fprintf(os.Stderr, "INCONCLUSIVE property=%s load failed: %v\n", id, err)
